@@ -1,5 +1,6 @@
 // GENERATED on every run by vlib/extract.py from /tmp/refcheck-18294 -- do not edit
 #![allow(unused_imports, unused_variables, unused_mut, dead_code, unused_parens, unused_braces, non_snake_case)]
+#![feature(allocator_api)]
 use vstd::prelude::*;
 use core::cmp::Ordering;
 verus! {
@@ -540,7 +541,7 @@ pub fn x_push_display(w: &mut String, d: &str)
     ensures final(w)@ == old(w)@ + d@
 { use std::fmt::Write; write!(w, "{}", d).unwrap() }
 
-// ---- unit U-dec.decode  <= purl/src/parse.rs:300 ----
+// ---- unit U-dec.decode  <= purl/src/parse.rs:297 ----
 #[verifier::external_body]
 pub fn decode(input: &str) -> (r: Result<Cow<str>, ParseError>)
     ensures match dec(input@) {
@@ -548,7 +549,7 @@ pub fn decode(input: &str) -> (r: Result<Cow<str>, ParseError>)
         Some(t) => r is Ok && r->Ok_0@ == t,
     }
 { unimplemented!() }
-// ---- unit U-sub.decode_subpath  <= purl/src/parse.rs:237 ----
+// ---- unit U-sub.decode_subpath  <= purl/src/parse.rs:234 ----
 #[verifier::loop_isolation(false)]
 pub fn decode_subpath(subpath: &str) -> (r: Result<SmallString, ParseError>)
     ensures match r {
@@ -594,7 +595,7 @@ if !(x_is_one_of3(segment, "", ".", "..")) {
     proof { assert(ps.take(ps.len() as int) == ps); }
 Ok(rebuilt)
 }
-// ---- unit U-ns.decode_namespace  <= purl/src/parse.rs:279 ----
+// ---- unit U-ns.decode_namespace  <= purl/src/parse.rs:276 ----
 #[verifier::loop_isolation(false)]
 pub fn decode_namespace(namespace: &str) -> (r: Result<SmallString, ParseError>)
     ensures match r {
